@@ -24,7 +24,7 @@ POOL = [
     "$.replace(0, 5)", "$.append(4, 5)", "$ + [4]", "$ * 2", "$.reverse()", "$.groupBy($ mod 2)", "$.zip($).toDict($[0], $[1])", "$.aggregate($1 + $2, 0)",
     "$.accumulate($1 + $2)", "regex('\\\\d').replaceBy('a1b2', str(int($.value) + $.len()))" if False else "regex('\\\\d').replaceBy('a1b2', '<' + $.value + '>')",
     "$.select(str($)).join(',')", "$.as($.len() => n) -> $n", "$.distinct().skip(1).take(5)", "[$, $].flatten()", "$.indexOf(2)", "$.splitWhere($ = 2)",
-    "$.sliceWhere($ > 1)", "$.enumerate().select($[0] * $[1])", "$.join($, $1 = $2, [$1, $2]).len()", "let(d => {a => $}) -> $d.a.select($ + 1)",
+    "$.sliceWhere($ > 1)", "$.groupBy($ mod 2, $, $.sum())", "$.groupBy($ mod 2, $, [$[0], $[1].sum()])", "$.groupBy($ mod 2, aggregator => $.len())", "$.enumerate().select($[0] * $[1])", "$.join($, $1 = $2, [$1, $2]).len()", "let(d => {a => $}) -> $d.a.select($ + 1)",
 ]
 
 MUTABLES = [[3, 1, 2, 1], {'b': 1, 'a': [1, 2]}, {1, 2, 3}, [[1, 2], [3]], [{'k': 1, 'v': [1]}, {'k': 2, 'v': []}], [['a', 1], ['b', 2]], ['x', 'yy']]
@@ -134,6 +134,18 @@ def run(rep, tier, seed, keep=False):
         parent = yaql.create_context()
         parent['shared'] = [1, 2, 3]
         base_snap = snap_chain(parent)
+        # a host may also assemble its context by hand (no '#finalize' / '#iter' in the chain): it must stay as it is, too
+        from yaql.language import contexts as _ctxs
+        from yaql.standard_library import (boolean as _b, branching as _br, collections as _c, common as _cm, math as _m, queries as _q,
+                                           regex as _r, strings as _s, system as _sy)
+        hand = _ctxs.Context()
+        for _mod in (_sy, _cm, _b, _s, _m, _c, _q, _r, _br):
+            try:
+                _mod.register(hand)
+            except TypeError:
+                _mod.register(hand, False)
+        hand['shared'] = [1, 2, 3]
+        hand_snap = snap_chain(hand)
         datas = [[3, 1, 2], [1, 2, 3, 4], [2, 2, 5]]
 
         def baseline(eng_, t, d):
@@ -170,6 +182,16 @@ def run(rep, tier, seed, keep=False):
                     if snap_chain(parent) != base_snap:
                         rep.violation('C09/history/host-context-changed', 'after %r the shared parent context chain differs' % (hist,), case)
                         base_snap = snap_chain(parent)
+                    # the same statement on the hand-assembled context (evaluated directly on it and on a child)
+                    for hc in (hand, hand.create_child_context()):
+                        try:
+                            stmts[(id(eng_), t)].evaluate(data=copy.deepcopy(d0), context=hc)
+                        except Exception:
+                            pass
+                    hs = snap_chain(hand)
+                    if [x[2:] for x in hs] != [x[2:] for x in hand_snap]:
+                        rep.violation('C09/history/hand-built-context-changed', 'after %r the functions of a hand-assembled host context changed' % (hist,), case)
+                        hand_snap = hs
                 nh += 1
                 rep.evaluations += 3
         rep.extra['histories_replayed'] = nh
